@@ -278,6 +278,7 @@ func C09(c *Ctx) {
 	c.c09Keywords()
 	c.c09Writes()
 	c.toggleCasesRule("C09-7")
+	c.defaultsRule("C09-8")
 
 	r.Rule("C09-6", "every assignment builder is created inside CreateFunction from that method's own entry: its opts field is MethodEntry.Opts of the constructor's parameter, and CreateFunction passes its own parameter")
 	if ab := c.MustType("C09-6", "/pkg/builder", "assignmentBuilder"); ab != nil {
